@@ -187,6 +187,27 @@ pub fn run(tier: &str, seed: u64, replay: Option<String>) -> i32 {
             });
         }
     }
+    // generated projects: the dormant features of one block switched on (every attribute that is
+    // 0 gets the same positive value: both side fins and the overhang of a window, offsets, ...)
+    for f in &files {
+        let lines = diskfault::split_lines(&f.text);
+        for b in diskfault::scan_blocks(&lines) {
+            if !matches!(b.btype.as_str(), "WINDOW" | "EXTERIOR-WALL" | "INTERIOR-WALL" | "UNDERGROUND-WALL" | "ROOF" | "SPACE" | "FLOOR" | "BUILDING-SHADE" | "POLYGON") {
+                continue;
+            }
+            for val in ["0.5", "1"] {
+                line_jobs.push(DJob {
+                    file: f.rel.clone(),
+                    edit: Edit::ZerosOn { line: b.start, value: val.to_string() },
+                    cell: format!("{}|{}|zeros_on={}|{}", f.kind.as_str(), b.btype, val, if b.btype == "WINDOW" { f.rel.as_str() } else { "" }),
+                    level: 1,
+                    e2e: false,
+                    closure: true,
+                    cost: f.text.len(),
+                });
+            }
+        }
+    }
     // generated projects: a space that keeps no enclosure of its own (HULC defines a partition in
     // only one of the two spaces it separates, so other walls may still name it as NEXT-TO)
     for f in &files {
